@@ -30,10 +30,20 @@ Theorem C18_other_shapes_refused : forall lhs rhs bd pos ic,
 Proof. exact essential_refuses. Qed.
 Print Assumptions C18_other_shapes_refused.
 
-(* dot(u, n) and dot(n, u) are the same object *)
-Theorem C18_dot_either_order : forall a b, show a <> show b -> mk_dot a b = mk_dot b a.
+(* dot(u, n) and dot(n, u) are the same object when neither operand may be matrix-valued (u.n of a vector, grad(u).n
+   of a SCALAR u) ... *)
+Theorem C18_dot_either_order : forall a b,
+  may_mat a = false -> may_mat b = false -> show a <> show b -> mk_dot a b = mk_dot b a.
 Proof. exact mk_dot_comm. Qed.
 Print Assumptions C18_dot_either_order.
+
+(* ... and the order written by the user is kept when one of them is the gradient of a VECTOR function (since /repo
+   d07302d: matrix.vector and vector.matrix are different products), so for a vector unknown only grad(u).n is the
+   admitted normal derivative, n.grad(u) is another expression and is refused *)
+Theorem C18_dot_keeps_matrix_order : forall a b,
+  may_mat a || may_mat b = true -> mk_dot a b = ENode "Dot" [a; b].
+Proof. exact mk_dot_keeps_matrix_order. Qed.
+Print Assumptions C18_dot_keeps_matrix_order.
 
 (* building the condition again from its own lhs and components (what the per-face
    expansion does) finds the same attributes *)
